@@ -137,6 +137,9 @@ func New(m *model.Schema, w *ref.World, opt Options) (*Built, error) {
 			b.Types[td.Name] = graphql.NewScalar(graphql.ScalarConfig{
 				Name: td.Name, Description: td.Desc,
 				Serialize: func(v interface{}) interface{} {
+					if ref.LeafRaises(v) {
+						panic("E:serialize")
+					}
 					if s, ok := v.(string); ok && len(s) >= 2 && s[:2] == "P:" {
 						return s[2:]
 					}
@@ -421,6 +424,8 @@ func (b *Built) isTypeOf(obj string) graphql.IsTypeOfFn {
 // ErrClass maps a library error message to the reference's error classes.
 func ErrClass(msg string) string {
 	switch {
+	case msg == "E:serialize" || msg == "runtime error: hash of unhashable type ref.LeafPanic":
+		return "leafpanic" // a leaf serializer raised (custom scalar / enum lookup)
 	case len(msg) >= 2 && msg[:2] == "E:":
 		return "resolver"
 	case msg == "An unknown error occurred.": // non-error, non-string panic value
